@@ -6,7 +6,7 @@ HERE = os.path.dirname(os.path.dirname(os.path.abspath(__file__)))
 
 # id -> (technique, level text, level note, design ref)
 CHECKS = {
- 'C09': ('Hypothesis cases x prior RNG states x intermediate-op histories; invariant on numpy.random.get_state(); digest round trip in-process; differential re-evaluation in fresh interpreters with other PYTHONHASHSEED values',
+ 'C09': ('Hypothesis cases (plus rare-branch and RNG-sensitive corpus replay) x prior RNG states incl. cached Gaussian x intermediate-op histories; invariant on numpy.random.get_state(); digest round trip in-process; differential re-evaluation in fresh interpreters with other PYTHONHASHSEED values',
          'Every ampycloud call in every history is bracketed by a bit-exact comparison of the global RNG state; each case is evaluated twice in-process around a drawn history and three more times in fresh interpreters (hash seeds 1, 4242, random; different orders) and all snapshot digests must agree.',
          'Thread counts pinned to 1; one machine / one BLAS.', '5/C09'),
  'C11': ('Hypothesis RuleBasedStateMachine over build / run / stage / edit-global / edit-snapshot / reset ops against deep-copy models of every caller object, the global dict and every chunk snapshot',
@@ -15,7 +15,7 @@ CHECKS = {
  'C12': ('differential testing of the three parameter routes (per-call, global dict, YAML/set_prms) on generated assignments over arbitrary prior global contents; poisoned-global metamorphic run; reset_prms against an independent read of the packaged YAML',
          'For each generated (scene, G0, P) the three routes must give identical chunk.prms, tables, data and messages; the per-call run must survive "POISON" sentinels in every global leaf it overrides; unknown keys must warn and add nothing; reset_prms (all / str / list) must restore exactly the packaged defaults, twice, with in-place edits in between.',
          'Packaged defaults are read by the harness own YAML load.', '5/C12'),
- 'C13': ('exhaustive stage interleavings of 2 chunks (70 per drawn pair), sampled/enumerated interleavings of 3 chunks, and PCT-style randomised pre-emption at ampycloud source-line granularity under a harness-owned sys.monitoring scheduler; oracle = isolated sequential reference',
+ 'C13': ('exhaustive stage interleavings of 2 chunks (70 per drawn pair), sampled/enumerated interleavings of 3 chunks; under a harness-owned sys.monitoring scheduler at ampycloud source-line granularity: PCT-style randomised pre-emption, systematic pre-emption-bound-1 and rendezvous schedules over every distinct line; oracle = isolated sequential reference',
          'The schedule is owned by the harness (baton passing on LINE events inside ampycloud code only), so a failing schedule is a replayable (case, switch vector). Stage-level interleavings are enumerated completely per drawn pair; line-level schedules are drawn by Hypothesis (1-40 switch points).',
          'Line granularity inside ampycloud only; no races inside C extensions or under real parallelism.', '5/C13'),
  'C20': ('Hypothesis chunks (incl. > 10 instruments, > 8 sets, no hits, VV) x plot-argument histories with side-effect oracles (exception, chunk snapshot, rcParams, open figures, directory listing)',
@@ -50,13 +50,13 @@ CHECKS = {
  'C03': ('Hypothesis scenes + exhaustive (n, N) grid against an exact rational coverage model',
          'Every table row of every generated case is recounted from chunk.data (distinct (ceilo, dt)), and the okta is compared with an exact-arithmetic model; the (count, total, buffers) grid for one flat layer is enumerated completely up to N=12 (quick) / 40 (thorough), including monotonicity along each line.',
          'Trusts the coverage model; accepts both neighbours at exact x.5 okta ties (the statement says "nearest").', '5/C03'),
- 'C04': ('Hypothesis scenes x base-height parameters against an independent percentile / look-back / exclusion model with tie intervals',
+ 'C04': ('Hypothesis scenes x base-height parameters against an independent percentile / look-back / exclusion model with tie intervals; exhaustive enumeration of calc_base_height over (n, look-back) and of pipeline runs at every (n, p) with n*p a multiple of 100; corpus replay',
          'Each base height, statistic and code of each table row is recomputed from the member hits with an own percentile routine over the look-back selection (interval only where dt ties straddle the cut), including float-neighbour heights around every coding boundary.',
          'Trusts vlib/oracles.py base_interval/percentile_linear; tolerances 1e-9 relative.', '5/C04'),
- 'C05': ('Hypothesis scenes incl. degenerate and >=102-slice constructions + conservation/partition invariants against the crop model',
+ 'C05': ('Hypothesis scenes incl. degenerate, multi-split, index-layout variants, anomalies and >=102-slice constructions + conservation/partition invariants against the crop model; corpus replay',
          'Per-hit ids, table id sets, counts, layer-in-group nesting and ncomp bookkeeping are checked on every case; hits are compared as a multiset with the crop model applied to the input. Dedicated constructions reach id-collision territory (>= 102 slices under a split group).',
          'Trusts the crop model and the invariants as written in vlib/props/c05.py.', '5/C05'),
- 'C06': ('Hypothesis merge-chain / split-candidate scenes x separation, percentile, look-back, exclusion, row order; metamorphic no-merge twin for non-triviality; harness-side spy for the no-re-merge precondition',
+ 'C06': ('Hypothesis merge-chain / limit-crossing / split / tie-split scenes x separation, percentile, look-back, exclusion, row order; metamorphic no-merge twin for non-triviality; harness-side spy for the no-re-merge precondition; directed follow-up run with the separation placed between decided and reported distance',
          'Group clause checked on every adjacent pair of every case; layer clause on every split group whose raw mixture count equals its final count (observed by wrapping layer.best_gmm / ncomp_from_gmm at run time). A twin run without merging measures how often merging really happened.',
          'Trusts the spy alignment (cases where it cannot be aligned are skipped and counted) and bin lookup in vlib/oracles.py.', '5/C06'),
  'C08': ('Hypothesis generation over all scene classes, anomalies, index layouts and all parameter leaves + exception bucketing; refusal domain checked for AmpycloudError-only; plus coverage-guided fuzzing (atheris/libFuzzer through fuzz_one_input, ampycloud instrumented) of the same target',
